@@ -553,6 +553,71 @@ fn pass_line(obs: &PassObs) -> String {
     s
 }
 
+/// outcome of a pass without the change list (used by the twin comparison)
+fn result_line(obs: &PassObs) -> String {
+    match &obs.result {
+        PassResult::Ok(recs) => {
+            let mut s = format!("ok n={}", recs.len());
+            for (i, r) in recs.iter().enumerate() {
+                s.push_str(&format!(
+                    " {}:{}:{}:{}:{}",
+                    key_name(&r.head_key),
+                    r.worldline_tick_after.as_u64(),
+                    r.commit_global_tick.as_u64(),
+                    r.admitted_count,
+                    obs.rejected[i]
+                ));
+            }
+            s
+        }
+        PassResult::Err(e) => format!("err {}", err_class(e)),
+        PassResult::Panic => "panic".to_string(),
+    }
+}
+
+/// Runs the case on a fresh world, skipping the ops at `skip`; returns the outcomes of the passes at
+/// op index > `from`, the final fingerprint (fault evidence excluded by construction) and the inbox /
+/// index summary without its fault part.
+fn run_tail(c: &Case, skip: &[usize], from: usize, dropped_fault: Option<usize>) -> Result<(Vec<String>, Vec<(String, String)>, String), String> {
+    let mut w = build(c)?;
+    let mut lines = Vec::new();
+    for (i, op) in c.ops.iter().enumerate() {
+        if skip.contains(&i) {
+            continue;
+        }
+        match op {
+            Op::Ing { wl, hid, bytes, ingid, ticket } => {
+                do_ing(&mut w, *wl, *hid, bytes, ingid, *ticket)?;
+            }
+            Op::Res(j) => {
+                // the twin has no record for the dropped fault: later records sit one index lower, and
+                // resolving the dropped (already resolved) one is a no-op in the main run
+                match dropped_fault {
+                    Some(f) if i > from && *j == f => {}
+                    Some(f) if i > from && *j > f => {
+                        do_res(&mut w, *j - 1);
+                    }
+                    _ => {
+                        do_res(&mut w, *j);
+                    }
+                }
+            }
+            Op::Elig { wl, hid, on } => {
+                do_elig(&mut w, *wl, *hid, *on);
+            }
+            Op::Pass { k, kind } => {
+                let obs = run_pass(&mut w, *k, kind);
+                if i > from {
+                    lines.push(result_line(&obs));
+                }
+            }
+        }
+    }
+    let summ = state_summary(&w);
+    let summ = summ.split(" faults=").next().unwrap_or("").to_string();
+    Ok((lines, hook::fingerprint(&w.rt, &w.prov, &w.eng), summ))
+}
+
 fn imp_pass(t: &mut Toks) -> Result<String, String> {
     let c = parse_case(t)?;
     let mut w = build(&c)?;
@@ -596,7 +661,12 @@ fn oracle_pass(t: &mut Toks, _tier: Tier) -> Result<OracleOut, String> {
     };
     let mut pass_no = 0usize;
     let mut resolved_heads: BTreeSet<WriterHeadKey> = BTreeSet::new();
-    for op in &c.ops {
+    // (op index of an injected failing pass, index of the fault record it added)
+    let mut failed_at: Option<(usize, usize)> = None;
+    // (op index of the failing pass, op index of the `res` that resolved exactly its fault)
+    let mut twin_of: Option<(usize, usize)> = None;
+    let mut n_injected_failures = 0usize;
+    for (op_ix, op) in c.ops.iter().enumerate() {
         match op {
             Op::Ing { wl, hid, bytes, ingid, ticket } => {
                 do_ing(&mut w, *wl, *hid, bytes, ingid, *ticket)?;
@@ -606,6 +676,11 @@ fn oracle_pass(t: &mut Toks, _tier: Tier) -> Result<OracleOut, String> {
                 let r = do_res(&mut w, *i);
                 if r == "ok" {
                     o.tags.push("resolve".into());
+                    if let Some((p_ix, f_ix)) = failed_at {
+                        if p_ix + 1 == op_ix && f_ix == *i && twin_of.is_none() {
+                            twin_of = Some((p_ix, op_ix));
+                        }
+                    }
                     if let Some(f) = before.get(*i) {
                         match f.scope {
                             SchedulerFaultScope::Head(k) => {
@@ -729,6 +804,10 @@ fn oracle_pass(t: &mut Toks, _tier: Tier) -> Result<OracleOut, String> {
                         }
                         let n = obs.expected_heads.len();
                         let injected = k.is_some() && kind != "none" && cls == kind.as_str();
+                        if injected && new == 1 {
+                            n_injected_failures += 1;
+                            failed_at = Some((op_ix, obs.faults_before.len()));
+                        }
                         o.tags.push(format!("fail.{}{}.n{}", if injected { "inj-" } else { "honest-" }, cls, n));
                         if let (true, Some(k)) = (injected, k) {
                             o.tags.push(format!("failpos.{k}of{n}"));
@@ -828,6 +907,44 @@ fn oracle_pass(t: &mut Toks, _tier: Tier) -> Result<OracleOut, String> {
                         }
                     }
                 }
+            }
+        }
+    }
+    // ---- recovery: injected failure -> resolve of exactly that fault -> the rest of the run must be
+    //      indistinguishable (pass outcomes, every fingerprint component, inbox / index sizes) from the
+    //      twin run that never executed the failing pass
+    if let (Some((p_ix, r_ix)), 1) = (twin_of, n_injected_failures) {
+        let has_later_pass = c.ops.iter().enumerate().any(|(i, op)| i > r_ix && matches!(op, Op::Pass { .. }));
+        if has_later_pass {
+            let (main_lines, main_fp, main_sum) = run_tail(&c, &[], r_ix, None)?;
+            let (twin_lines, twin_fp, twin_sum) = run_tail(&c, &[p_ix, r_ix], r_ix, failed_at.map(|(_, f)| f))?;
+            if main_lines != twin_lines {
+                let at = main_lines.iter().zip(twin_lines.iter()).position(|(a, b)| a != b).unwrap_or(0);
+                fail(
+                    &mut o,
+                    "C09.retry.twin-records".into(),
+                    format!(
+                        "after failure + recovery, pass #{} after the recovery returned [{}] but the never-failed twin returned [{}]",
+                        at + 1,
+                        main_lines.get(at).cloned().unwrap_or_default(),
+                        twin_lines.get(at).cloned().unwrap_or_default()
+                    ),
+                );
+            }
+            for comp in changed(&main_fp, &twin_fp) {
+                fail(
+                    &mut o,
+                    format!("C09.retry.twin-differs.{}", comp_class(&comp)),
+                    format!("after failure + recovery + retried pass, component {} differs from the never-failed twin", comp_name(&comp)),
+                );
+            }
+            if main_sum != twin_sum {
+                fail(&mut o, "C09.retry.twin-differs.summary".into(), format!("[{main_sum}] vs twin [{twin_sum}]"));
+            }
+            o.tags.push("retry-twin".into());
+            if main_lines.iter().any(|l| l.starts_with("ok n=") && !l.starts_with("ok n=0")) {
+                o.tags.push("retry-twin-commits".into());
+                o.nontrivial = true;
             }
         }
     }
@@ -955,6 +1072,53 @@ fn gen_pass(rng: &mut Rng, tier: Tier) -> Vec<String> {
                     // follow-up: another pass (quarantine), recovery, then a pass again
                     ops.push("pass - none".into());
                     ops.push("res 0".into());
+                    ops.push("pass - none".into());
+                    out.push(render(&shape, None, &ops));
+                }
+            }
+        }
+    }
+    // 1b. recovery scenarios: every head commit correlates 2-3 ticketed ingresses under ONE current-basis
+    //     key, a LATER head fails (k >= 1), the fault is resolved at once, the pass is retried, then the
+    //     run goes on; the oracle compares the tail with the never-failed twin
+    let treps = if tier == Tier::Thorough { 4 } else { 1 };
+    for _ in 0..treps {
+        for n in 2..=4u32 {
+            for k in 1..n {
+                for (ki, kind) in kinds.iter().enumerate() {
+                    let nw = rng.range(1, 3.min(n as u64));
+                    let mut heads = Vec::new();
+                    for i in 0..n as u64 {
+                        let wl = if i < nw { i + 1 } else { rng.range(1, nw) };
+                        // a budgeted head leaves part of its inbox for the retried / later passes
+                        let budget = if rng.chance(1, 4) { Some(2u32) } else { None };
+                        heads.push((wl, 10 + i, false, budget));
+                    }
+                    rng.shuffle(&mut heads);
+                    let shape = Shape { wls: (1..=nw).map(|w| (w, false, None)).collect(), heads };
+                    let mut ops = Vec::new();
+                    let mut serial = 0u8;
+                    let fill = |ops: &mut Vec<String>, rng: &mut Rng, serial: &mut u8, min: u64| {
+                        for (wl, hid, _, _) in &shape.heads {
+                            let m = rng.range(min, 3);
+                            for j in 0..m {
+                                *serial += 1;
+                                let tk = if j < 2 || rng.chance(1, 2) { Some(100 + *serial as u64) } else { None };
+                                let cls = if rng.chance(1, 5) { b'C' } else { b'N' };
+                                ops.push(ing_tok(*wl, *hid, &[cls, *serial], tk));
+                            }
+                        }
+                    };
+                    let warm = (k as usize + ki) % 3;
+                    for _ in 0..warm {
+                        fill(&mut ops, rng, &mut serial, 1);
+                        ops.push("pass - none".into());
+                    }
+                    fill(&mut ops, rng, &mut serial, 2);
+                    ops.push(format!("pass {k} {kind}"));
+                    ops.push("res 0".into());
+                    ops.push("pass - none".into());
+                    fill(&mut ops, rng, &mut serial, 0);
                     ops.push("pass - none".into());
                     out.push(render(&shape, None, &ops));
                 }
